@@ -809,8 +809,24 @@ def build_c13_sweep(rng):
     return gen_base(rng, p, sessions=sessions, spy_ties=True)
 
 
+def build_c13_giant(rng):
+    """more than 65535 first-side agents, ties on both sides; the file is
+    only loaded by the solver (ranks read = ranks the text denotes)"""
+    p = giant_params(rng)
+    p['t1'] = rng.choice([.3, .5, .7, 1])
+    p['t2'] = rng.choice([.3, .5, .7, 1])
+    na = 3 if p['mp'] == 'spa' else 2
+    sessions = [{'file': '0.txt', 'na': na, 'twopl': True,
+                 'opts': {'criteria': []}, 'ops': []}]
+    sc = gen_base(rng, p, sessions=sessions, spy_ties=True)
+    sc['giant'] = True
+    return sc
+
+
 def build_c13(rng, tier):
     x = rng.random()
+    if x < GIANT_LANE.get(tier, 0):
+        return build_c13_giant(rng)
     if x < 0.002:
         return build_c13_huge(rng)
     if x < 0.02:
